@@ -98,6 +98,22 @@ fn main() {
             println!("{}", serde_json::to_string_pretty(&worker::case_json(&args[2], verif_seed(), idx)).unwrap());
             0
         }
+        Some("reach") => {
+            // reach PROP GUARD LO HI: with GUARD lifted (AXSIM_NOGUARD must name it), how many generated
+            // histories enter its region (trip its predicate)?
+            let (lo, hi): (u64, u64) = (args[4].parse().unwrap(), args[5].parse().unwrap());
+            let mut n = 0;
+            for i in lo..hi {
+                let v = worker::case_json(&args[2], verif_seed(), i);
+                if let Ok(c) = serde_json::from_value::<run::SqlReplay>(v) {
+                    if guards::first_violation(&c.events, &[args[3].clone()]).is_some() {
+                        n += 1;
+                    }
+                }
+            }
+            println!("{} of {} histories of {} enter the region of {}", n, hi - lo, args[2], args[3]);
+            0
+        }
         Some("audit") => {
             // audit PROP LO HI: generated cases that trip their own guards
             let (lo, hi): (u64, u64) = (args[3].parse().unwrap(), args[4].parse().unwrap());
